@@ -244,3 +244,99 @@ Proof. intros. split; reflexivity. Qed.
 (* every general derivative path passes through the sanitiser (generated fact) *)
 Theorem general_paths_sanitized : forallb snd gen_general_paths_sanitized = true.
 Proof. reflexivity. Qed.
+
+(* ---- C07: handles retrieve the right entries ---- *)
+Theorem handle_lookup : forall V x i v,
+  NoDup V -> List.length x = List.length V -> nth_error V i = Some v ->
+  lookup_val (combine V x) v = nth_error x i.
+Proof.
+  induction V as [|a V IH]; intros x i v Hnd Hl Hi.
+  - destruct i; discriminate.
+  - destruct x as [|b x]; [discriminate|]. inversion Hnd as [|? ? Hna Hnd']; subst.
+    destruct i as [|i]; cbn in *.
+    + injection Hi as <-. rewrite String.eqb_refl. reflexivity.
+    + destruct (String.eqb a v) eqn:E.
+      * apply String.eqb_eq in E. subst. exfalso. apply Hna. eapply nth_error_In; eauto.
+      * apply IH; auto.
+Qed.
+
+Theorem get_vector_spec : forall V x names,
+  NoDup V -> List.length x = List.length V ->
+  (forall n, In n names -> In n V) ->
+  forall k n, nth_error names k = Some n ->
+  exists i, nth_error V i = Some n /\ nth_error (get_vector (combine V x) names) k = Some (nth_error x i).
+Proof.
+  intros V x names Hnd Hl Hin k n Hk.
+  assert (HinV : In n V) by (apply Hin; eapply nth_error_In; eauto).
+  apply In_nth_error in HinV. destruct HinV as [i Hi]. exists i. split; auto.
+  unfold get_vector. rewrite nth_error_map, Hk. cbn. f_equal. eapply handle_lookup; eauto.
+Qed.
+
+Theorem get_matrix_shape : forall vals rows,
+  List.length (get_matrix vals rows) = List.length rows /\
+  forall i r, nth_error rows i = Some r ->
+              exists r', nth_error (get_matrix vals rows) i = Some r' /\ List.length r' = List.length r.
+Proof.
+  intros. unfold get_matrix. split; [apply map_length|].
+  intros i r Hr. rewrite nth_error_map, Hr. eexists; split; [reflexivity|]. unfold get_vector. apply map_length.
+Qed.
+
+(* ---- C18: integrality is never relaxed silently ---- *)
+Theorem strict_never_reaches_oracle : forall has_obj is_lp auto_nlp st V method,
+  non_continuous st V <> [] ->
+  oracle_called (solve_front has_obj is_lp auto_nlp st V method true) = false.
+Proof.
+  intros has_obj is_lp auto_nlp st V method H. unfold solve_front.
+  destruct (negb has_obj); auto.
+  destruct (route_of is_lp auto_nlp method); [destruct (negb is_lp); auto|destruct V; auto];
+    rewrite gate_strict_raises by auto; reflexivity.
+Qed.
+
+(* when the request can be served at all (an objective, and a linear model if an LP
+   method is forced), strict raises IntegerVariableError naming exactly the
+   non-continuous variables, in problem order *)
+Theorem strict_raises_integer_error : forall is_lp auto_nlp st V method,
+  non_continuous st V <> [] ->
+  (forall lm, route_of is_lp auto_nlp method = RouteLP lm -> is_lp = true) ->
+  solve_front true is_lp auto_nlp st V method true = SInteger (non_continuous st V).
+Proof.
+  intros is_lp auto_nlp st V method H Hr. unfold solve_front. cbn [negb].
+  destruct (route_of is_lp auto_nlp method) as [lm|sm] eqn:E.
+  - rewrite (Hr lm eq_refl). cbn [negb]. rewrite gate_strict_raises by auto. reflexivity.
+  - destruct V as [|v V]; [exfalso; apply H; reflexivity|].
+    rewrite gate_strict_raises by auto. reflexivity.
+Qed.
+
+(* without strict: a warning naming exactly those variables, then the very same
+   oracle call as for the relaxed (all-continuous) problem *)
+Definition relax (st : store) : store :=
+  fun v => {| lb := lb (st v); ub := ub (st v); vdom := Continuous |}.
+
+Lemma relax_continuous : forall st V, non_continuous (relax st) V = [].
+Proof. intros. unfold non_continuous, relax. induction V; cbn; auto. Qed.
+
+Theorem nonstrict_warns_and_relaxes : forall has_obj is_lp auto_nlp st V method r ws,
+  non_continuous st V <> [] ->
+  solve_front has_obj is_lp auto_nlp st V method false = SRan ws r ->
+  ws = non_continuous st V /\
+  solve_front has_obj is_lp auto_nlp (relax st) V method false = SRan [] r.
+Proof.
+  intros has_obj is_lp auto_nlp st V method r ws H Hs. unfold solve_front in *.
+  destruct (negb has_obj); [discriminate|].
+  destruct (route_of is_lp auto_nlp method) as [lm|sm] eqn:E.
+  - destruct (negb is_lp); [discriminate|].
+    rewrite gate_warns in Hs by auto. injection Hs as <- <-. split; auto.
+    assert (Hp : gate (relax st) V false = Pass) by (apply gate_pass_iff, relax_continuous).
+    rewrite Hp. reflexivity.
+  - destruct V as [|v V]; [discriminate|].
+    rewrite gate_warns in Hs by auto. injection Hs as <- <-. split; auto.
+    assert (Hp : gate (relax st) (v :: V) false = Pass) by (apply gate_pass_iff, relax_continuous).
+    rewrite Hp. reflexivity.
+Qed.
+
+(* binary variables always carry [0, 1] *)
+Theorem binary_bounds : forall l u, lb (declare l u Binary) = Some 0 /\ ub (declare l u Binary) = Some 1.
+Proof. intros. split; reflexivity. Qed.
+
+Theorem declare_keeps_domain : forall l u d, vdom (declare l u d) = d.
+Proof. intros l u []; reflexivity. Qed.
